@@ -83,6 +83,19 @@ class MetaString(type):
         else:
             raise ValueError(f"{value} not a string")
 
+    def _update_in_place(cls, buffer, offset, value):
+        """Overwrite an existing string keeping the capacity fixed at creation"""
+        capacity = Int64._from_buffer(buffer, offset)
+        if isinstance(value, String):
+            value = value.to_str()
+        info = cls._inspect_args(value)
+        if info.size > capacity:
+            raise ValueError(
+                f"`{value}` is too large to fit in {capacity - 8} bytes"
+            )
+        info.size = capacity
+        cls._to_buffer(buffer, offset, value, info)
+
     def _get_data(cls, buffer, offset):
         ll = Int64._from_buffer(buffer, offset)
         return buffer.to_bytearray(offset + 8, ll - 8)
